@@ -22,7 +22,7 @@ class C13Pairs(Scenario):
         else:
             cfg = structs.BloomSubject.gen_cfg(rng, small=True)
         rel = rng.weighted([(5, "compatible"), (2, "diff_est"), (2, "diff_rate"), (2, "diff_hash"), (1, "identical"),
-                            (2, "near")])
+                            (2, "near"), (2, "same_bits")])
         cfg.update({"kind": kind, "rel": rel, "a_disk": kind == "bloom" and rng.chance(1, 3),
                     "b_disk": kind == "bloom" and rng.chance(1, 3), "steps": rng.between(2, self.max_steps),
                     "universe": rng.choice((4, 8, 16)), "hseed2": rng.below(1 << 16),
@@ -59,9 +59,14 @@ class C13Pairs(Scenario):
                 sz["width"] += 1
             elif rel == "diff_rate":
                 sz["depth"] += 1
+            elif rel == "same_bits" and sz["width"] != sz["depth"]:
+                # same number of cells, other shape
+                sz["width"], sz["depth"] = sz["depth"], sz["width"]
+                self.ctx.probe("transposed_sketch_pair")
+                return (sz, hf), False
             elif rel == "diff_hash":
                 hf = self.hf2
-            return (sz, hf), rel in ("compatible", "identical", "near")  # 'near' only exists for Bloom sizings
+            return (sz, hf), rel in ("compatible", "identical", "near", "same_bits")  # Bloom-only relations count as compatible
         est, rate, hf = cfg["est"], cfg["rate"], self.env.hf
         if rel == "diff_est":
             est = est + 1 + est // 2
@@ -69,6 +74,24 @@ class C13Pairs(Scenario):
             rate = rate / 3.0
         elif rel == "diff_hash":
             hf = self.hf2
+        elif rel == "same_bits":
+            # another sizing with exactly the same number of bits / cells but a different number of hashes
+            m1, k1 = common.geometry(cfg["est"], cfg["rate"])
+            found = None
+            for e2 in range(1, 4 * cfg["est"] + 8):
+                if e2 == cfg["est"]:
+                    continue
+                for i in range(1, 200):
+                    r2 = 0.0025 * i
+                    g = common.geometry(e2, r2)
+                    if g and g[0] == m1 and g[1] != k1:
+                        found = (e2, r2)
+                        break
+                if found:
+                    break
+            if found:
+                est, rate = found
+                self.ctx.probe("same_bits_other_hash_count")
         elif rel == "near":
             # a sizing whose bit count differs but rounds up to the same number of bytes (and the same k)
             m1, k1 = common.geometry(cfg["est"], cfg["rate"])
